@@ -274,6 +274,7 @@ const (
 	ctxEntryValidate
 	ctxXNode
 	ctxEntryDebug
+	ctxEntryTwice // the same context object is run twice
 )
 
 func safeRun(m *xpath.Machine, ck ctxKind, cur *faulttree.Node, goctx context.Context) (o runOut) {
@@ -292,6 +293,10 @@ func safeRun(m *xpath.Machine, ck ctxKind, cur *faulttree.Node, goctx context.Co
 		res = xpath.NewCtxFromCurrent(goctx, m, cur.Entry(nil)).EnableValidation().Run()
 	case ctxXNode:
 		res = xpath.NewCtxFromMach(m, smallXTree()).Run()
+	case ctxEntryTwice:
+		c := xpath.NewCtxFromCurrent(goctx, m, cur.Entry(nil))
+		_ = c.Run()
+		res = c.Run()
 	case ctxEntryDebug:
 		res = xpath.NewCtxFromCurrent(goctx, m, cur.Entry(nil)).SetDebug(true).Run()
 		if res != nil {
@@ -461,6 +466,8 @@ func (world) RunCase(t *tape.Tape, st *super.Stats) *super.Violation {
 			inc("reach:debug_mode_runs")
 		} else if t.Rare(16) {
 			kinds = append(kinds, ctxXNode)
+		} else if t.Rare(24) {
+			kinds = []ctxKind{ctxEntryTwice}
 		}
 		for _, ck := range kinds {
 			tree.Reset()
@@ -470,6 +477,20 @@ func (world) RunCase(t *tape.Tape, st *super.Stats) *super.Violation {
 			if st != nil {
 				st.Add("callback_steps", int64(n))
 				st.Max("max:callbacks_in_one_run", int64(n))
+			}
+			if ck == ctxEntryTwice {
+				// a context is a one-shot object (its Result is created with it); running it twice is
+				// outside the property's "the result carries that error" — only totality is asserted
+				inc("reach:context_run_twice")
+				if base.panicked {
+					return &super.Violation{Class: "panic-escaped", Sig: "panic-escaped|run|" + base.pframe,
+						Detail: fmt.Sprintf("second Run() of one context panicked: %s\n%s", clip(base.pval, 300), caseDesc())}
+				}
+				if !base.nilRes && base.err == nil && !base.hasVal {
+					return &super.Violation{Class: "neither", Sig: "neither|no-error-no-value|" + b.g.name, Detail: "second Run() of one context\n" + caseDesc()}
+				}
+				intactOrRestore(tree, st)
+				continue
 			}
 			if v := judgeRun(b.g.name, base, tree, caseDesc, "fault-free"); v != nil {
 				return v
